@@ -815,6 +815,23 @@ def m_eq(I, st, info, args, depth):
 def m_contains(I, st, info, args, depth):
     arr = deref(I, st, args[0])
     key = args[1]
+    kv = deref(I, st, key)
+    if isinstance(arr, Seq) and arr.elems is not None and isinstance(kv, Aff) and all(isinstance(I.resolve(st, e), Aff) for e in arr.elems):
+        # numbers: equal to one of the listed values, or different from all of them
+        out = []
+        cur = st
+        for e in arr.elems:
+            nxt = None
+            for s2, t in fork_bool(I, cur, I.compare(cur, "Eq", kv, I.resolve(cur, e))):
+                if t:
+                    out.append((s2, "return", BoolV(True)))
+                else:
+                    nxt = s2
+            if nxt is None:
+                return out
+            cur = nxt
+        out.append((cur, "return", BoolV(False)))
+        return out
     if isinstance(arr, Seq) and arr.elems is not None:
         out = []
         cur = st
@@ -1241,6 +1258,10 @@ def m_index(I, st, info, args, depth):
                         if isinstance(bp, Ptr) and isinstance(I.resolve(s4, I.load(s4, bp)), Seq):
                             res.append((s4, "return", Ptr(bp.cell, bp.path + (("range", a, b),))))
                             continue
+                    if a == Aff(0) and b == s_.length and not info["tdef"].endswith("index_mut"):
+                        # the whole sequence (`v[..]`, `&v[0..v.len()]`): the same elements under the same names
+                        res.append((s4, "return", s_))
+                        continue
                     sub = Seq("%s[%r..%r]" % (s_.name, a, b), b.sub(a), kind=s_.kind if s_.kind != "array" else "bytes")
                     if s_.elems is not None and a.is_const() and b.is_const():
                         sub = Seq(sub.name, sub.length, s_.elems[a.const:b.const], None, {}, sub.kind)
@@ -1260,6 +1281,45 @@ def m_split_at(I, st, info, args, depth):
             out.append((s2, "return", Struct("(tuple)", None, {"0": Seq(s_.name + "[..%r]" % mid, mid, kind="bytes"), "1": Seq(s_.name + "[%r..]" % mid, s_.length.sub(mid), kind="bytes")})))
         else:
             out.append((s2, "panic", ("split_at", info["fn"], info["ln"])))
+    return out
+
+
+@model(r"^core::slice::<impl \[T\]>::split_at_mut$")
+def m_split_at_mut(I, st, info, args, depth):
+    """two disjoint mutable views of one buffer: pointers to its byte ranges (writes through them land in the buffer)"""
+    p = I.resolve(st, args[0])
+    g = 0
+    while isinstance(p, Ptr) and isinstance(I.resolve(st, I.load(st, p)), Ptr) and g < 4:
+        p = I.resolve(st, I.load(st, p))
+        g += 1
+    s_ = seq_of(I, st, args[0])
+    mid = I.resolve(st, args[1])
+    if not (isinstance(p, Ptr) and isinstance(mid, Aff)):
+        return None
+    out = []
+    for s2, okk in need(I, st, info, "split_at_mut", I.compare(st, "Le", mid, s_.length), "mid %r <= len %r" % (mid, s_.length)):
+        if okk:
+            out.append((s2, "return", Struct("(tuple)", None, {"0": Ptr(p.cell, p.path + (("range", Aff(0), mid),)), "1": Ptr(p.cell, p.path + (("range", mid, s_.length),))})))
+        else:
+            out.append((s2, "panic", ("split_at_mut", info["fn"], info["ln"])))
+    return out
+
+
+@model(r"^alloc::vec::Vec::<T, A>::split_off$")
+def m_split_off(I, st, info, args, depth):
+    """v.split_off(at): v keeps [..at], the result is [at..]; panics when at > len"""
+    p = I.resolve(st, args[0])
+    s_ = seq_of(I, st, args[0])
+    at = I.resolve(st, args[1])
+    if not (isinstance(p, Ptr) and isinstance(at, Aff)):
+        return None
+    out = []
+    for s2, okk in need(I, st, info, "split_off", I.compare(st, "Le", at, s_.length), "at %r <= len %r" % (at, s_.length)):
+        if okk:
+            I.store_to(s2, p, Seq(s_.name + "[..%r]" % at, at, kind="vec"))
+            out.append((s2, "return", Seq(s_.name + "[%r..]" % at, s_.length.sub(at), kind="vec")))
+        else:
+            out.append((s2, "panic", ("split_off", info["fn"], info["ln"])))
     return out
 
 
@@ -1312,7 +1372,7 @@ def m_panic(I, st, info, args, depth):
 @model(r"^core::str::<impl str>::split$|^core::str::<impl str>::splitn$|^core::str::<impl str>::rsplit$")
 def m_split(I, st, info, args, depth):
     src = seq_of(I, st, args[0])
-    return ret(st, Struct("str::Split", None, {"src": src}))
+    return ret(st, Struct("str::Split", None, {"src": src, "sep": args[1] if len(args) > 1 else UNIT, "pos": Aff(0), "how": StrV(info["tdef"].split("::")[-1])}))
 
 
 @model(r"^core::iter::traits::iterator::Iterator::collect$")
@@ -1609,6 +1669,7 @@ SAFE_STD = (r"^core::str::<impl str>::(bytes|chars|char_indices|trim|trim_start|
             r"^core::slice::<impl \[T\]>::(iter_mut|starts_with|ends_with|chunks|chunks_exact|chunks_exact_mut|windows|split_first|split_last|to_owned|concat|is_sorted|binary_search|get_mut|fill|reverse|as_ptr)$|"
             r"^alloc::vec::Vec::<T, A>::(get|first|last|clear|truncate|reserve|capacity|pop|iter|as_ptr|shrink_to_fit|dedup|retain|append|is_empty)$|"
             r"^alloc::string::String::(clear|capacity|from_utf8_lossy|truncate|pop|reserve)$|^core::char::methods::<impl char>::|^core::num::<impl u8>::(is_ascii|to_ascii|eq_ignore)|"
+            r"^alloc::string::FromUtf8Error::(utf8_error|into_bytes|as_bytes)$|^core::str::error::Utf8Error::(valid_up_to|error_len)$|"
             r"^core::option::Option::<T>::(iter|iter_mut)$|"
             r"^core::result::Result::<T, E>::(iter|iter_mut)$|"
             r"^std::collections::hash::map::HashMap::<K, V, S(, A)?>::(get|iter|keys|values|len|is_empty|get_key_value)$|^std::collections::hash::set::HashSet::<T, S(, A)?>::(contains|get|len|is_empty|iter)$|"
@@ -1645,6 +1706,40 @@ def m_split_at_checked(I, st, info, args, depth):
             out.append((s2, "return", some(Struct("(tuple)", None, {"0": Seq(s_.name + "[..%r]" % mid, mid, kind="bytes"), "1": Seq(s_.name + "[%r..]" % mid, s_.length.sub(mid), kind="bytes")}))))
         else:
             out.append((s2, "return", none()))
+    return out
+
+
+@model(r"^core::slice::<impl \[T\]>::(first_chunk|split_first_chunk|last_chunk|split_last_chunk)$")
+def m_chunk_split(I, st, info, args, depth):
+    """first_chunk::<N> / split_first_chunk::<N> / last_chunk::<N> / split_last_chunk::<N>: None when the slice is shorter than N"""
+    op = info["tdef"].split("::")[-1]
+    s_ = seq_of(I, st, args[0])
+    L = s_.length
+    n = None
+    for g in (info.get("gargs") or []):
+        if re.fullmatch(r"\d+(_usize)?", str(g)):
+            n = int(str(g).split("_")[0])
+    if n is None:
+        m = re.search(r"::<(\d+)>$", M.decode_typenum(info["name"]))
+        n = int(m.group(1)) if m else None
+    if n is None:
+        return None
+    n = Aff(n)
+
+    def arr(name):
+        return Seq(name, n, kind="array")
+    out = []
+    for s2, t in fork_bool(I, st, I.compare(st, "Le", n, L)):
+        if not t:
+            out.append((s2, "return", none()))
+        elif op == "first_chunk":
+            out.append((s2, "return", some(Ptr(s2.new_cell(arr(s_.name + "[..%r]" % n)), ()))))
+        elif op == "last_chunk":
+            out.append((s2, "return", some(Ptr(s2.new_cell(arr(s_.name + "[%r..]" % L.sub(n))), ()))))
+        elif op == "split_first_chunk":
+            out.append((s2, "return", some(Struct("(tuple)", None, {"0": Ptr(s2.new_cell(arr(s_.name + "[..%r]" % n)), ()), "1": Seq(s_.name + "[%r..]" % n, L.sub(n), kind="bytes")}))))
+        else:
+            out.append((s2, "return", some(Struct("(tuple)", None, {"0": Seq(s_.name + "[..%r]" % L.sub(n), L.sub(n), kind="bytes"), "1": Ptr(s2.new_cell(arr(s_.name + "[%r..]" % L.sub(n))), ())}))))
     return out
 
 
@@ -1757,6 +1852,23 @@ def m_fmt_write(I, st, info, args, depth):
     if info["def"] in I.facts.bodies:
         return None
     td = info["tdef"]
+    p = I.resolve(st, args[0])
+    cur = deref(I, st, p)
+    if isinstance(p, Ptr) and isinstance(cur, Seq) and cur.kind == "str" and (td.endswith("write_fmt") or td.endswith("write_str")) and "Formatter" not in td:
+        # write!(string, ..) / string.write_str(..): the text is appended to the String (never fails)
+        if td.endswith("write_fmt"):
+            val = m_format(I, st, info, [deref(I, st, args[1])], depth)[0][2]
+            add = val.chunks if isinstance(val, Seq) and val.chunks is not None else [("arg", val)]
+        else:
+            x = deref(I, st, args[1])
+            add = [("lit", x.s)] if isinstance(x, StrV) else [("arg", x)]
+        chunks = list(cur.chunks) if cur.chunks is not None else ([("arg", cur)] if cur.elems is None and cur.name != "string" else [])
+        ln = cur.length
+        for kind, x in add:
+            chunks.append((kind, x))
+            ln = ln.add(Aff(len(x.encode())) if kind == "lit" else (length_of(I, st, x) or Aff.sym("len?")))
+        I.store_to(st, p, Seq(cur.name, ln, None, chunks, cur.attrs, "str"))
+        return ret(st, ok(UNIT))
     if td.endswith("write_fmt"):
         a = deref(I, st, args[1])
         r = m_format(I, st, info, [a], depth)
